@@ -3,7 +3,7 @@
    same formulas is measured per sampled case by kernel-checked interval certificates. *)
 From Coq Require Import Reals List Bool QArith Lra.
 From EsVerif.Common Require Import Base.
-From EsVerif.C10 Require Import Gen Model Spec Trig Forward Poly History Proofs Source Inverse.
+From EsVerif.C10 Require Import Gen Model Spec Trig Forward Poly History Proofs Source Inverse SkySame.
 Import ListNotations.
 Local Open Scope R_scope.
 
@@ -240,6 +240,21 @@ Theorem C10_fit_grid_is_image : forall h,
   src_pv_fit_ranges (h_naxis1 h) (h_naxis2 h) (h_crpix1 h) (h_crpix2 h) = image_rect_offsets h /\
   src_sip_fit_ranges (h_naxis1 h) (h_naxis2 h) (h_crpix1 h) (h_crpix2 h) = image_rect h.
 Proof. exact fit_ranges_are_the_image. Qed.
+
+(* Meaning of the rational checker used for "scalar calls = array calls" and for the input forms: the chord
+   between two sky positions is 4 sin^2(dlat/2) + 4 cos lat cos lat' sin^2(dlon/2) exactly, and two positions
+   that pass range_check and sky_same_check with tolerance tol (degrees) are closer than sqrt (2 + PI) tol on the
+   sky -- across the RA = 0 seam and however close to a pole. *)
+Theorem C10_sky_chord_identity : forall l t l' t',
+  vdist2 (unitvec l t) (unitvec l' t') =
+  4 * (sin (rad (t - t') / 2)) ^ 2 + 4 * cos (rad t) * cos (rad t') * (sin (rad (l - l') / 2)) ^ 2.
+Proof. exact sky_chord_identity. Qed.
+
+Theorem C10_sky_same_meaning : forall lon lat lon' lat' tol : Q,
+  range_check lon lat = true -> range_check lon' lat' = true ->
+  sky_same_check lon lat lon' lat' tol = true ->
+  vdist2 (unitvec (Q2R lon) (Q2R lat)) (unitvec (Q2R lon') (Q2R lat')) <= (2 + PI) * (rad (Q2R tol)) ^ 2.
+Proof. exact sky_same_check_meaning. Qed.
 
 (* Non-vacuity: concrete distorted headers meet the hypotheses used above. *)
 Definition ex_header (p : proj) : header :=
